@@ -326,6 +326,8 @@ let run_case op t =
                     sp ([e.(0); e.(1)] = [e.(2); e.(3)] && [e.(0); e.(1)] = [e.(4); e.(5)]))
        | "copy2" -> (lege (linalg_copy_guard [e.(0); e.(1)] [e.(2); e.(3)]) "blas1_copy.hpp" xy, sp ([e.(0); e.(1)] = [e.(2); e.(3)]))
        | "swap2" -> (lege (linalg_swap_guard [e.(0); e.(1)] [e.(2); e.(3)]) "blas1_swap_elements.hpp" xy, sp ([e.(0); e.(1)] = [e.(2); e.(3)]))
+       | "copy1m" -> (lege (linalg_copy_guard [e.(0)] [e.(1)]) "blas1_copy.hpp" xy, sp (e.(0) = e.(1)))
+       | "copy1s" -> (lege (linalg_copy_guard [z_of_int 3] [e.(1)]) "blas1_copy.hpp" xy, sp (z_of_int 3 = e.(1)))
        | "mvp" -> (by_site (linalg_mvp_site e.(0) e.(1) e.(2) e.(3)) "blas2_matrix_vector_product.hpp" "a.extent(1)_==_x.extent(0)" "a.extent(0)_==_y.extent(0)",
                    sp (e.(1) = e.(2) && e.(0) = e.(3)))
        | _ -> raise Not_found)
